@@ -32,7 +32,7 @@ def prog_factory(kind, which, K, start):
             L.check_policy_sees_current_obs(ctx, tr, "sample_actions", lambda p: p["obs"])
         else:
             tr = L.RUNNERS[kind](ctx, which, K, start)
-        ctx.log.append(f"{which}: {tr.env.n_steps} steps, {tr.env.n_resets} resets")
+        ctx.log.append(f"{which}: {tr.env.n_steps} steps")
     return prog
 
 
